@@ -88,20 +88,36 @@ static inline CachinKursawePetzoldShoupRBC *vn_rbc(size_t n, size_t t, size_t j)
   return r;
 }
 
-// ---------------------------------------------------------------- oracle arithmetic in the toy group (plain long)
+// ---------------------------------------------------------------- oracle arithmetic in the toy group
+// Written for the solver: 32-bit unsigned arithmetic, compile-time tables for g^e, h^e and group membership (a 64-bit '%' costs
+// about as much as a whole model-GMP exponentiation), no division where a conditional subtraction does.
 #ifndef H_H
 #define H_H ((H_G * H_G) % H_P)
 #endif
-static inline long vo_mod(long a, long m) { a %= m; if (a < 0) a += m; return a; }
-#ifndef VO_EBITS
-#define VO_EBITS 4
+constexpr unsigned vo_cpow(unsigned b, unsigned e, unsigned m) { return e == 0 ? 1 % m : (vo_cpow(b, e - 1, m) * (b % m)) % m; }
+#define VO_T24(F) { F(0), F(1), F(2), F(3), F(4), F(5), F(6), F(7), F(8), F(9), F(10), F(11), F(12), F(13), F(14), F(15), F(16), F(17), F(18), F(19), F(20), F(21), F(22), F(23) }
+#if H_P > 24
+#error "oracle tables hold 24 entries"
 #endif
-static inline long vo_pow(long b, long e, long m) { long r = 1 % m; b = vo_mod(b, m); for (int i = 0; i < VO_EBITS; ++i) { if (e & 1) r = (r * b) % m; e >>= 1; b = (b * b) % m; } return r; }   // 0 <= e < 2^VO_EBITS
-static inline bool vo_member(long a) { return a > 0 && a < H_P && vo_pow(a, H_Q, H_P) == 1; }
-static inline long vo_commit(long s, long t) { return (vo_pow(H_G, vo_mod(s, H_Q), H_P) * vo_pow(H_H, vo_mod(t, H_Q), H_P)) % H_P; }   // g^s h^t, any sign
-// prod_k A_k^(x^k) mod p, k = 0..t (A_k any integer: reduced like mpz_powm does)
-static inline long vo_eval(const long *A, unsigned t, long x) { long r = 1, xe = 1; for (unsigned k = 0; k <= t; ++k) { r = (r * vo_pow(A[k], xe, H_P)) % H_P; xe *= x; } return r; }
-// f(x) mod q for coefficients c_0..c_t
-static inline long vo_poly(const long *c, unsigned t, long x) { long r = 0, xe = 1; for (unsigned k = 0; k <= t; ++k) { r = vo_mod(r + vo_mod(c[k], H_Q) * xe, H_Q); xe = (xe * x) % H_Q; } return r; }
-static inline long vo_inv(long a, long m) { a = vo_mod(a, m); for (long y = 1; y < m; ++y) if ((a * y) % m == 1) return y; return 0; }
+#define VO_GE(k) (unsigned char)vo_cpow(H_G, k, H_P)
+#define VO_HE(k) (unsigned char)vo_cpow(H_H, k, H_P)
+#define VO_ME(k) (unsigned char)((k) > 0 && (k) < H_P && vo_cpow(k, H_Q, H_P) == 1)
+static const unsigned char vo_gp[24] = VO_T24(VO_GE), vo_hp[24] = VO_T24(VO_HE), vo_mem[24] = VO_T24(VO_ME);
+// a mod m for |a| < 2^15 (any sign)
+static inline unsigned vo_mod(long a, unsigned m) { int r = (int)a % (int)m; if (r < 0) r += (int)m; return (unsigned)r; }
+// a mod q for -q <= a <= 2q (no division)
+static inline unsigned vo_modq(long a) { int r = (int)a; if (r < 0) r += H_Q; if (r < 0) r += H_Q; if (r >= H_Q) r -= H_Q; if (r >= H_Q) r -= H_Q; return (unsigned)r; }
+static inline unsigned vo_mul(unsigned a, unsigned b) { return (a * b) % (unsigned)H_P; }       // a, b < p
+static inline unsigned vo_mulq(unsigned a, unsigned b) { return (a * b) % (unsigned)H_Q; }
+static inline bool vo_member(long a) { return a > 0 && a < H_P && vo_mem[a] != 0; }
+// g^s h^t for exponents of either sign, -q <= s, t <= 2q
+static inline long vo_commit(long s, long t) { return (long)vo_mul(vo_gp[vo_modq(s)], vo_hp[vo_modq(t)]); }
+static inline long vo_gpow(long s) { return (long)vo_gp[vo_modq(s)]; }
+// b^e mod p for a small concrete-bounded e (e <= 16), b any integer with |b| < 2^15 (reduced like mpz_powm does)
+static inline unsigned vo_pow(long b, unsigned e) { unsigned r = 1 % H_P, bb = vo_mod(b, H_P); for (unsigned i = 0; i < 16 && i < e; ++i) r = vo_mul(r, bb); return r; }
+// prod_k A_k^(x^k) mod p, k = 0..t  (x small and concrete in every harness)
+static inline long vo_eval(const long *A, unsigned t, unsigned x) { unsigned r = 1, xe = 1; for (unsigned k = 0; k <= t; ++k) { r = vo_mul(r, vo_pow(A[k], xe)); xe *= x; } return (long)r; }
+// f(x) mod q for coefficients c_0..c_t in [0, q)
+static inline long vo_poly(const long *c, unsigned t, unsigned x) { unsigned r = 0, xe = 1 % H_Q; for (unsigned k = 0; k <= t; ++k) { r = (r + vo_mulq((unsigned)c[k], xe)) % (unsigned)H_Q; xe = vo_mulq(xe, x % H_Q); } return (long)r; }
+static inline long vo_inv(long a, unsigned m) { unsigned aa = vo_mod(a, m); for (unsigned y = 1; y < m; ++y) if ((aa * y) % m == 1) return (long)y; return 0; }
 #endif
